@@ -6,7 +6,7 @@ import gen_types
 
 
 def install(state, spec):
-    state["ins"] = find_lib.Instrument(cap=spec.get("find_cap", 1500)).install()
+    state["ins"] = find_lib.Instrument(cap=spec.get("find_cap", 4000)).install()
     find_lib.VARIANT["v"] = spec.get("find_variant")
     state["boxes"] = find_lib.boxes_of(gen_types.factory(spec["lang"]))
 
